@@ -230,4 +230,10 @@ MUTANTS = [
  dict(id="C20", name="clone_values_forgets_fine_part", edits=[(MM, "                if(coarse_dest)\n                    values[ind_dest] = (val<<7)|(values[ind_dest]&0x7f);\n                else\n                    values[ind_dest] = val|(values[ind_dest]&0x3f80);\n            }\n        }\n    }\n}", "                if(coarse_dest)\n                    values[ind_dest] = (val<<7)|(values[ind_dest]&0x7f);\n            }\n        }\n    }\n}")]),
 
  dict(id="C13", name="directory_lookup_without_slash", edits=[(SF, "        const Port* port = ports.apropos(is_leaf_level\n                                         ? cur_portname.c_str()\n                                         : (cur_portname + '/').c_str());", "        const Port* port = ports.apropos(cur_portname.c_str());")]),
+ # ---- mirrors of what round-5 independent changes needed
+ dict(id="C14", name="int_array_local_is_a_char", edits=[(PS, "            auto var = obj->name[idx]; \\\n            var = rtosc_argument(msg, 0).i; \\\n", "            char var = rtosc_argument(msg, 0).i; \\\n")]),
+ dict(id="C14", name="clamp_needs_both_bounds", edits=[(PS, "    if(prop[\"min\"] && var < (decltype(var)) convert(prop[\"min\"])) \\\n", "    if(prop[\"min\"] && prop[\"max\"] && var < (decltype(var)) convert(prop[\"min\"])) \\\n")]),
+ dict(id="C14", name="option_symbol_matched_by_prefix", edits=[(PC, "    if(!strcmp(m.value, value))\n    {\n        result = atoi(m.title+4);", "    if(!strncmp(m.value, value, strlen(m.value)))\n    {\n        result = atoi(m.title+4);")]),
+ dict(id="C03", name="wide_variadic_message_on_the_heap", edits=[(RC, "    STACKALLOC(rtosc_arg_t, args, nargs);\n    rtosc_va_list_t ap2;\n    va_copy(ap2.a, ap);\n    rtosc_v2args(args, nargs, arguments, &ap2);", "    rtosc_arg_t args_fixed[32];\n    rtosc_arg_t *args = nargs > 32 ? (rtosc_arg_t*)malloc(nargs*sizeof(rtosc_arg_t)) : args_fixed;\n    rtosc_va_list_t ap2;\n    va_copy(ap2.a, ap);\n    rtosc_v2args(args, nargs, arguments, &ap2);\n    if(nargs > 32) { size_t r_ = rtosc_amessage(buffer,len,address,arguments,args); free(args); return r_; }")]),
+ dict(id="C12", name="toggle_arrays_of_mixed_first_type_differ", edits=[("src/cpp/arg-val-cmp.c", "               && !(rtosc_av_arr_type(_lhs) == 'F' && rtosc_av_arr_type(_rhs) == 'T'))\n", "               && !(rtosc_av_arr_type(_lhs) == 'F' && rtosc_av_arr_type(_lhs) == 'T'))\n")]),
 ]
